@@ -96,6 +96,36 @@ fn one(acc: &mut Acc, vm: &mut Option<Vm>, p: &PNum, radix: u32) {
             }
         }
     }
+    // exactness prefixes: #e<spelling> denotes (inexact->exact <value of the spelling>), #i<spelling> its inexact
+    // counterpart, whichever side of the radix prefix they are written on
+    for (ex, conv) in [("#e", "inexact->exact"), ("#i", "exact->inexact")] {
+        let want_form = list(vec![sym(conv), list(vec![sym("string->number"), Cell::String(s.clone()), int(radix as i64)])]);
+        let want = match scheme(vm, &want_form) {
+            Ok(Ok(Cell::Number(n))) => n,
+            // the conversion itself is not this property's subject
+            _ => continue,
+        };
+        let texts = if radix == 10 { vec![format!("{}{}", ex, s), format!("{}#d{}", ex, s), format!("#d{}{}", ex, s)] } else { vec![format!("{}{}{}", ex, prefix, s), format!("{}{}{}", prefix, ex, s)] };
+        for text in texts {
+            let v = vm.get_or_insert_with(Vm::new);
+            let r = std::panic::catch_unwind(std::panic::AssertUnwindSafe(|| v.eval_text(&text).map(|(c, rest)| (c, rest.map(|s| s.to_string())))));
+            match r {
+                Err(e) => {
+                    *vm = None;
+                    return fail(acc, "panic", json!({"session": [text], "panic": panic_message(&e)}));
+                }
+                Ok(Err(e)) => return fail(acc, "literal-error", json!({"session": [text], "error": format!("{}", e)})),
+                Ok(Ok((Cell::Number(n), None))) if same_number(&n, &want) => {}
+                Ok(Ok((c, rest))) => {
+                    return fail(
+                        acc,
+                        "prefixed-literal-denotes-different-value",
+                        json!({"session": [text], "result": format!("{:#}", c), "remaining": rest, "expected": format!("{:#}", Cell::Number(want.clone())), "expected_from": format!("{:#}", want_form)}),
+                    )
+                }
+            }
+        }
+    }
     acc.outcome("inverse");
     acc.nontrivial += 1;
 }
@@ -197,7 +227,7 @@ pub fn run(ctx: &Ctx) -> i32 {
         acc = Acc::merge(acc, a);
     }
     rep.rule = format!(
-        "(string->number (number->string z r) r) must be a number with z's value and exactness, and eval_text of the printed spelling with the #b/#o/#d/#x prefix (and bare for r = 10) must denote the same value. z x r enumerated: the {} exact palette numbers in every representation x {{2,8,10,16}}; {} integers (k*2^e+d, and every integer of magnitude <= 70 000 - thorough: 1 100 000, all five-hex-digit numbers) x 4 radices; all reduced p/q with |p| <= 1100, q in 1..33 or 480..500 x 4 radices; finite doubles at radix 10: every {}-th of the {} structured doubles (every exponent field x 24 mantissa patterns x 2 signs), {} special values, the C09 float palette. Non-trivial = the whole inverse law held for that (z, r); cases are distinct (value, representation, radix) triples.",
+        "(string->number (number->string z r) r) must be a number with z's value and exactness, and eval_text of the printed spelling with the #b/#o/#d/#x prefix (and bare for r = 10) must denote the same value; with an exactness prefix (#e / #i, on either side of the radix prefix) it must denote what inexact->exact / exact->inexact make of that value. z x r enumerated: the {} exact palette numbers in every representation x {{2,8,10,16}}; {} integers (k*2^e+d, and every integer of magnitude <= 70 000 - thorough: 1 100 000, all five-hex-digit numbers) x 4 radices; all reduced p/q with |p| <= 1100, q in 1..33 or 480..500 x 4 radices; finite doubles at radix 10: every {}-th of the {} structured doubles (every exponent field x 24 mantissa patterns x 2 signs), {} special values, the C09 float palette. Non-trivial = the whole inverse law held for that (z, r); cases are distinct (value, representation, radix) triples.",
         n_exact, n_extra, step, nd, specials.len()
     );
     rep.assumptions.push("NaN and infinities are outside the property".into());
